@@ -164,6 +164,8 @@ def make_capa(n, p, m, M, mode="c03"):
 
     def run(eng, acc):
         from skchange.anomaly_detectors import CAPA
+        from .prelude import prelude
+        prelude("CAPA", n, p, m, M)
         try:
             det = CAPA(TableSaving(p=p), TableSaving(p=p, tag="P"), collective_penalty_scale=SymReal(cs),
                        point_penalty_scale=SymReal(ps), min_segment_length=m, max_segment_length=M)
@@ -248,19 +250,59 @@ def mv_base(n, p, m, M, creg="general", preg="sparse"):
     return ca, cb, pa, pb, base
 
 
-def make_mvcapa(n, p, m, M, mode="c03", creg="general", preg="sparse"):
+class TagSaving(TableSaving):
+    """Table saving whose columns are identified by the *data*: column j of the data it is fitted on holds the tag of
+    the variable it stands for (tag_X), and the saving of that column is the table entry of that tag.  A detector that
+    reorders, drops or relabels columns between the caller's frame and the scorer is then visible in the terms."""
+
+    def _fit(self, X, y=None):
+        self.tags_ = [int(v) for v in np.asarray(X, dtype=float)[0]]
+        return super()._fit(X, y)
+
+    def _evaluate(self, cuts):
+        out = super()._evaluate(cuts)
+        if self.values is None:
+            for i in range(out.shape[0]):
+                key = "_".join(str(int(c)) for c in np.asarray(cuts)[i])
+                for j in range(out.shape[1]):
+                    out[i, j] = SymReal(z3.Real(f"{self.tag}_{key}_{self.tags_[j]}"))
+            return out
+        res = np.empty(out.shape, dtype=float)
+        for i in range(out.shape[0]):
+            key = "_".join(str(int(c)) for c in np.asarray(cuts)[i])
+            for j in range(out.shape[1]):
+                res[i, j] = float(self.values.get(f"{self.tag}_{key}_{self.tags_[j]}", self.default))
+        return res
+
+
+def tag_X(n, p, order=None):
+    """frame with string labels whose column `v<t>` holds the constant t; `order`: the tags from left to right"""
+    order = list(range(p)) if order is None else list(order)
+    return pd.DataFrame(np.tile(np.array(order, dtype=float), (n, 1)), columns=[f"v{t}" for t in order])
+
+
+def make_mvcapa(n, p, m, M, mode="c03", creg="general", preg="sparse", colperm=None):
+    """colperm (C16): the detector is fitted on the frame with columns v0..v{p-1} and asked to predict on a frame that
+    holds the same labelled columns in the order colperm; everything reported (icolumns, dense labels) must refer to the
+    column positions of the frame that was *passed to predict*."""
     ca, cb, pa, pb, base = mv_base(n, p, m, M, creg, preg)
     cscale = z3.Real("cscale")
-    X = dummy_X(n, p)
+    X = dummy_X(n, p) if colperm is None else tag_X(n, p, colperm)
+    Xfit = X if colperm is None else tag_X(n, p)
+    Sav = TableSaving if colperm is None else TagSaving
     info = dict(det="MVCAPA", n=n, p=p, m=m, M=M, creg=creg, preg=preg)
+    if colperm is not None:
+        info["colperm"] = list(colperm)
 
     def run(eng, acc):
         from skchange.anomaly_detectors import MVCAPA
+        from .prelude import prelude
+        prelude("MVCAPA", n, p, m, M)
         try:
-            det = MVCAPA(TableSaving(p=p), TableSaving(p=p, tag="P"), collective_penalty=_mv_penalty(ca, cb),
+            det = MVCAPA(Sav(p=p), Sav(p=p, tag="P"), collective_penalty=_mv_penalty(ca, cb),
                          collective_penalty_scale=SymReal(cscale), point_penalty=_mv_penalty(pa, pb),
                          min_segment_length=m, max_segment_length=M)
-            det.fit(X)
+            det.fit(Xfit)
             out = det.predict(X)
             scores = [rv(v) for v in det.scores.values]
         except Exception as ex:
@@ -275,7 +317,7 @@ def make_mvcapa(n, p, m, M, mode="c03", creg="general", preg="sparse"):
         acc.add_to("outputs", (tuple(anoms), tuple(map(tuple, cols))))
         if mode == "c16":
             from .c16 import affected_obligations
-            affected_obligations(eng, acc, det, out, X, anoms, cols, n, p, m, info, pa, pb, cscale)
+            affected_obligations(eng, acc, det, out, X, anoms, cols, n, p, m, info, pa, pb, cscale, colmap=colperm)
             _witness(eng, acc, info, anoms, scores, cols=cols)
             return
         orc = Oracle(n, p, m, min(M, n), ca, cb, pa, pb)
@@ -306,6 +348,8 @@ def make_mvcapa_named(n, p, m, M, cpen="combined", ppen="sparse", mode="c03"):
     def run(eng, acc):
         from skchange.anomaly_detectors import MVCAPA
         from skchange.anomaly_detectors.mvcapa import capa_penalty_factory
+        from .prelude import prelude
+        prelude("MVCAPA", n, p, m, M)
         try:
             det = MVCAPA(TableSaving(p=p), TableSaving(p=p, tag="P"), collective_penalty=cpen, collective_penalty_scale=SymReal(cs),
                          point_penalty=ppen, point_penalty_scale=SymReal(ps), min_segment_length=m, max_segment_length=M)
@@ -339,6 +383,8 @@ def native_run(info, env, ignore_points=False):
     S = {k: v for k, v in env.items() if k.startswith("S_")}
     P = {k: v for k, v in env.items() if k.startswith("P_")}
     X = dummy_X(n, p)
+    from .prelude import prelude
+    prelude(info["det"], n, p, m, M)
     with proxy.native():
         if info["det"] == "CAPA":
             det = CAPA(TableSaving(p=p, values=S), TableSaving(p=p, tag="P", values=P),
@@ -360,6 +406,14 @@ def native_run(info, env, ignore_points=False):
         else:
             cb = [env.get(f"cbeta_{k}", 0.0) for k in range(p)]
             pb = [env.get(f"pbeta_{k}", 0.0) for k in range(p)]
+            if info.get("colperm") is not None:
+                det = MVCAPA(TagSaving(p=p, values=S), TagSaving(p=p, tag="P", values=P),
+                             collective_penalty=_num_penalty(env.get("calpha", 0.0), cb), collective_penalty_scale=float(env.get("cscale", 0.0)),
+                             point_penalty=_num_penalty(env.get("palpha", 0.0), pb),
+                             min_segment_length=m, max_segment_length=M, ignore_point_anomalies=ignore_points)
+                det.fit(tag_X(n, p))
+                out = det.predict(tag_X(n, p, info["colperm"]))
+                return out, np.asarray(det.scores.values, dtype=float), (float(env.get("calpha", 0.0)), cb, float(env.get("palpha", 0.0)), pb)
             det = MVCAPA(TableSaving(p=p, values=S), TableSaving(p=p, tag="P", values=P),
                          collective_penalty=_num_penalty(env.get("calpha", 0.0), cb),
                          collective_penalty_scale=float(env.get("cscale", 0.0)),
